@@ -267,7 +267,8 @@ RealValues ==
      [c |-> "NAN", s |-> 0, m |-> <<>>, e |-> 0] >>
 
 OidValues == << <<1, 2>>, <<0, 39, 3>>, <<2, 5, 4, 3>>, <<1, 2, 840, 113549>>, <<2, 999, 3>>, <<2, 40>>,
-                <<1, 0, 127, 128, 16383, 16384>> >>
+                <<1, 0, 127, 128, 16383, 16384>>, <<2, 47>>, <<2, 48, 1>>, <<2, 100, 3>>, <<2, 175, 1>>, <<2, 176>>,
+                <<2, 16303, 5>>, <<2, 16304>> >>
 
 RECURSIVE Values(_, _, _)
 \* fuel bounds the unfolding of recursive types: it decreases at every type
